@@ -651,6 +651,11 @@ def _split_msh(content):
         if len(seps) > len(set(seps)):
             raise InvalidEncodingChars("Found duplicate encoding chars")
 
+        # like the field separator, the other encoding chars cannot be blanks: segments are stripped before being
+        # parsed, so a blank MSH-2 character would be lost (and MSH-2 would come out too short)
+        if any(c.isspace() for c in seps):
+            raise InvalidEncodingChars("Found blank encoding chars")
+
         try:
             comp_sep, rep_sep, escape, sub_sep = seps
             trunc_sep = None
